@@ -124,6 +124,8 @@ func (l *Listener) Wait(ctx context.Context) error {
 	// always de-register to clean up memory in case it was not de-registered yet.
 	defer l.Deregister()
 
+	verifBeforeSelect(l)
+
 	// we wait either until the channel got closed or the context is done
 	select {
 	case <-l.channel:
